@@ -40,6 +40,10 @@ CHECKS = {
          "For every 1-D geometry up to N x crops x 14 algorithms x 6 alpha pixel types x back-ends x both orientations ALL alpha masks are laid out as the lines of one image and resized under four different colour assignments for the transparent pixels; results must be identical, alpha 0 in the output must carry colour 0, the alpha channel must equal the one-channel resize of the alpha plane and an opaque source must give the use_alpha(false) result. 2-D shapes incl. SuperSampling with all masks (<= 8 pixels) or 48 structured masks.",
          "N = 6 / 10; geometries where the destination equals an integer crop are exact copies (C12) and excluded.",
          "DESIGN.md §4 C07"),
+ "C08": ("controlled-scheduler exploration (loom) of the library's real band code under a loom-thread model of the rayon entry points it uses, plus exhaustive pool-size x shape x band-order enumeration with per-band write sets, the band-count arithmetic on a boundary alphabet, and conformance of the model against the real rayon",
+         "Part 1: for 7 bodies x 4 pixel types x {portable, SIMD} x reported pool sizes x 2..5 workers loom explores every interleaving of the band claims/joins up to preemption bound 2/3 (thousands of executions); the destination is a harness ImageViewMut whose rows are loom UnsafeCells, so an unsynchronised access to a row is reported in every execution even when the bytes agree; every execution must equal the sequential bytes and run each band once. Part 2: every pool size 1..33,64,1000 x shapes incl. 65535/65536/65537-tall and -wide images x all band orders, write sets pairwise disjoint, both build profiles. Part 3: band-count functions on (0..300 ∪ 2^k±1)^2. Part 4: the same bodies under the real rayon at pool sizes 1..32+ agree with the single-threaded bytes (trace validation of the model).",
+         "rayon itself is trusted (each for_each item runs exactly once); loom sees the model's atomics and the per-row cells, not plain accesses to other memory; loom's limit of 5 threads per execution bounds workers x regions.",
+         "DESIGN.md §4 C08, §2.4"),
  "C09": ("explicit-state search (stateright BFS) over Resizer histories whose states hold the real Resizer; every transition runs the real operation on the reused and on a fresh Resizer",
          "State = real Resizer (deduplicated on its Debug rendering: back-end + full contents of the three scratch buffers, plus depth); 176 actions (8 pixel types of pixel size 1..16 and alignment 1/2/4, 4 geometries, 4 algorithms, alpha, fractional crops, erroring calls, reset_internal_buffers, clone, back-end switches) explored exhaustively to depth 2/3 and a 39-action sub-alphabet to depth 3/4; each transition compares result value and destination bytes with Resizer::new(); the search is run twice and the state/transition counts must agree.",
          "Depth-bounded; the alphabet of geometries and contents is finite and fixed; allocator behaviour (alignment of the scratch Vec) is the system allocator's here and adversarial in C03.",
@@ -105,7 +109,9 @@ def main():
             "add_only": True,
         },
         "engines": [
-            {"name": "firmc", "path": "/verif/harness", "serves_properties": [c["property_id"] for c in checks if c["property_id"] != "C08"],
+            {"name": "c08loom", "path": "/verif/loomh", "serves_properties": ["C08"], "kind_free_text": "E4 loom exploration of the real band code with a model crate substituted for rayon ([patch.crates-io]); serial band orders with write sets; band-count enumeration"},
+            {"name": "c08rayon", "path": "/verif/rayonh", "serves_properties": ["C08"], "kind_free_text": "conformance of the rayon model against the real rayon thread pool"},
+            {"name": "firmc", "path": "/verif/harness", "serves_properties": [c["property_id"] for c in checks],
              "kind_free_text": "E1 bounded-exhaustive explorer over index spaces (threads or isolated child processes), E2 coefficient model bound to the code by replay, E3 stateright explicit-state search over Resizer histories"},
         ],
         "checks": checks,
